@@ -753,10 +753,69 @@ func (h *H) Quiesce() (bool, string) {
 		} else {
 			time.Sleep(20 * time.Microsecond)
 			if i%256 == 0 && time.Now().After(deadline) {
-				return false, s.String()
+				return false, WithDeadlockEvidence(s.String())
 			}
 		}
 	}
+}
+
+// MutexDeadlock looks for a goroutine that is inside the library and blocked on a mutex in two
+// goroutine dumps taken 300 ms apart (same goroutine id). It is called when quiescence could not be
+// reached within its (long) timeout: with the peer idle, nothing releases such a lock any more, so
+// this is evidence of a deadlock rather than of a slow machine. It returns the stack, or "".
+func MutexDeadlock() string {
+	blocked := func() map[string]string {
+		out := map[string]string{}
+		for _, g := range LibraryGoroutines() {
+			head := g
+			if i := strings.IndexByte(g, '\n'); i >= 0 {
+				head = g[:i]
+			}
+			if !strings.Contains(head, "[sync.Mutex.Lock") && !strings.Contains(head, "[sync.RWMutex") && !strings.Contains(head, "[semacquire") {
+				continue
+			}
+			body := g
+			if i := strings.Index(body, "\ncreated by "); i >= 0 {
+				body = body[:i]
+			}
+			if !strings.Contains(body, "github.com/dgrr/http2.") {
+				continue
+			}
+			id := head
+			if i := strings.Index(head, " ["); i >= 0 {
+				id = head[:i]
+			}
+			out[id] = g
+		}
+		return out
+	}
+	a := blocked()
+	if len(a) == 0 {
+		return ""
+	}
+	time.Sleep(300 * time.Millisecond)
+	b := blocked()
+	for id, g := range b {
+		if _, ok := a[id]; ok {
+			return g
+		}
+	}
+	return ""
+}
+
+// DeadlockMark prefixes the detail string of a failed quiescence when MutexDeadlock found evidence;
+// the lanes' runner turns an inconclusive outcome carrying it into a violation.
+const DeadlockMark = "LIBRARY-DEADLOCK"
+
+func WithDeadlockEvidence(detail string) string {
+	if g := MutexDeadlock(); g != "" {
+		lines := strings.Split(g, "\n")
+		if len(lines) > 24 {
+			lines = lines[:24]
+		}
+		return DeadlockMark + ": quiescence was not reached and a goroutine of the library has been blocked on a mutex throughout:\n" + strings.Join(lines, "\n") + "\n(" + detail + ")"
+	}
+	return detail
 }
 
 // WaitServeDone waits for ServeConn to return.
